@@ -35,15 +35,6 @@ theorem C03_check_sound (code : List Instr) (a : Top) : check code a = true → 
   simp only [codeTree, astTree] at heq
   rw [heq]
 
-theorem evalClauses_not_stuck (I : Interp) (elt : Expr) : ∀ (cl : List Clause) (loops : List (Val × List Nat)),
-    evalClauses I elt loops cl ≠ .stuck
-  | [], _ => by simp [evalClauses]
-  | c :: cs, loops => by
-      simp only [evalClauses]
-      split
-      · exact evalClauses_not_stuck I elt cs _
-      · simp
-
 /-- an accepted pair never gets stuck (stack underflow, jump out of the code, unsupported instruction, out of fuel) -/
 theorem C03_check_not_stuck (code : List Instr) (a : Top) : check code a = true → ∀ I : Interp, run code I ≠ .stuck := by
   intro h I
@@ -85,5 +76,29 @@ theorem C03_decompiled_eq_and_differs : run codeGenEqAnd witnessI ≠ (genOf ast
   rw [C03_check_sound codeGenEqAnd (genOf astEqAnd) (by decide)]
   simp [genOf, astEqAnd, astEqNotOr, Top.eval, evalClauses, evalIfs, Expr.eval, CmpRest.evalChain, Args.evalBool, Interp.cmpVal,
     witnessI, Interp.truth]
+
+/-! ### the defect that remains after the contained repairs (fixes/C03-copy-value-context.diff): a conditional expression whose test
+mixes `not` with and/or, in value context (atoms: 0 = `.0`, 1 = x, 2 = a, 3 = b, 4 = c, 5 = d) -/
+
+/-- `((c if (a or (not b)) else d) for x in .0)` as compiled by CPython 3.12 -/
+def codeGenIfeOrNot : List Instr :=
+  [.load 0, .forIter, .store 1, .load 2, .jumpIf true 7, .load 3, .jumpIf true 9, .load 4, .jump 10, .load 5,
+   .yieldValue, .popTop, .jumpBack 1]
+def genElt (e : Expr) : Top := .gen e [{ targets := [1], iter := .atom 0, ifs := [] }]
+def astIfeOrNot : Expr := .ife (.boolop true (.atom 2) (.cons (.not (.atom 3)) .nil)) (.atom 4) (.atom 5)
+/-- what the decompiler returns: `c if not (a or b) else d` -/
+def astIfeNotOr : Expr := .ife (.not (.boolop true (.atom 2) (.cons (.atom 3) .nil))) (.atom 4) (.atom 5)
+
+example : check codeGenIfeOrNot (genElt astIfeOrNot) = true := by decide
+example : check codeGenIfeOrNot (genElt astIfeNotOr) = false := by decide
+
+/-- every object is true -/
+def allTrueI : Interp := { atom := fun n => .obj n, op := fun _ _ => .none, truthObj := fun _ => true }
+
+/-- the AST returned for `c if a or not b else d` in a yielded expression does NOT have the meaning of the code:
+    with `a` true the code yields `c`, the decompiled expression yields `d` -/
+theorem C03_decompiled_ifexp_not_differs : run codeGenIfeOrNot allTrueI ≠ (genElt astIfeNotOr).eval allTrueI := by
+  rw [C03_check_sound codeGenIfeOrNot (genElt astIfeOrNot) (by decide)]
+  simp [genElt, astIfeOrNot, astIfeNotOr, Top.eval, evalClauses, evalIfs, Expr.eval, Args.evalBool, allTrueI, Interp.truth]
 
 end PonyVerif.Props.C03
